@@ -8,6 +8,7 @@ import (
 	"github.com/tobgu/qframe"
 	"github.com/tobgu/qframe/config/groupby"
 	"github.com/tobgu/qframe/config/newqf"
+	"github.com/tobgu/qframe/types"
 	"pgregory.net/rapid"
 
 	"verifsim/sim/core"
@@ -51,6 +52,44 @@ type FrameBounds struct {
 var intPool = []int{0, 1, -1, 2, 3, 7, 42, -42, 1 << 31, -(1 << 31), math.MaxInt64, math.MinInt64, 255, 256}
 var floatPool = []float64{0, math.Copysign(0, -1), 1, -1, 1.5, 0.1, 1e21, 1e-7, 123456789.125, math.MaxFloat64, math.SmallestNonzeroFloat64, 9007199254740993, 1e19, 9.3e18, -2.5e-300}
 var strPool = []string{"", "a", "b", "abc", "A", " ", " a ", "a,b", "\"", "\"\"", "a\"b", "\n", "a\nb", "é", "漢字", "\xff", "\xc3", "0", "1", "true", "null", "NaN", "'", "\\", "\t", "\x00", " ", "x\x01y", "ab", "a\x00", "$", "%", "é́", "\ufffd", "a\ufffdb", "\u2028", "\u2029", "\x7f", "\xed\xa0\x80", "\xf0\x9f\x98\x80", "\xc0\x80", "\ufeff", "\ufeffa"}
+
+var pow10u = func() []uint64 {
+	p := []uint64{1}
+	for i := 1; i <= 19; i++ {
+		p = append(p, p[i-1]*10)
+	}
+	return p
+}()
+
+// StressFloats derives n finite floats from one key: a third from random
+// bits (every binade equally likely), a third with a random mantissa in a
+// binade of the "human" range 1e-30..1e30, a third decimals of 1..17 digits.
+// One drawn value stands for many floats, so shortest-decimal formatting and
+// parsing are exercised on hundreds of values per simulated run.
+func StressFloats(key uint64, n int) []float64 {
+	r := core.NewSplitMix(key)
+	out := make([]float64, 0, n)
+	for len(out) < n {
+		var f float64
+		switch r.Intn(3) {
+		case 0:
+			f = math.Float64frombits(r.Uint64())
+		case 1:
+			f = math.Ldexp(1+float64(r.Uint64()>>12)/(1<<52), r.Intn(200)-100)
+			if r.Intn(2) == 0 {
+				f = -f
+			}
+		default:
+			nd := 1 + r.Intn(17)
+			m := r.Uint64() % pow10u[nd]
+			f, _ = strconv.ParseFloat(strconv.FormatUint(m, 10)+"e"+strconv.Itoa(r.Intn(nd+19)-nd-12), 64)
+		}
+		if !math.IsNaN(f) && !math.IsInf(f, 0) {
+			out = append(out, f)
+		}
+	}
+	return out
+}
 
 // canonical NaN and the NaN the x86 produces for 0.0/0.0 at run time
 var nanA = math.NaN()
@@ -96,6 +135,21 @@ func drawFloat(t *rapid.T, b FrameBounds) float64 {
 		// exact powers of two across the whole exponent range (shortest-decimal
 		// boundary cases), either sign
 		f := math.Ldexp(1, rapid.IntRange(-1074, 1023).Draw(t, "pow2"))
+		if rapid.Bool().Draw(t, "neg") {
+			f = -f
+		}
+		return f
+	case k == 5 && !b.SmallDomain:
+		// human-scale decimals of 1..17 significant digits (5.0000000001,
+		// 61234.56789, 0.000012345678901234567): digit-count dependent
+		// formatting paths and rounding to a number of decimals
+		nd := rapid.IntRange(1, 17).Draw(t, "ndigits")
+		m := rapid.Uint64Range(0, pow10u[nd]-1).Draw(t, "digits")
+		e := rapid.IntRange(-nd-12, 6).Draw(t, "dexp")
+		f, err := strconv.ParseFloat(strconv.FormatUint(m, 10)+"e"+strconv.Itoa(e), 64)
+		if err != nil {
+			f = float64(m)
+		}
 		if rapid.Bool().Draw(t, "neg") {
 			f = -f
 		}
@@ -336,12 +390,18 @@ type ScrOp struct {
 }
 
 // DrawScramble draws 0..3 operations.
-func DrawScramble(t *rapid.T, fs *FrameSpec) Scramble { return drawScramble(t, fs, 5) }
+func DrawScramble(t *rapid.T, fs *FrameSpec) Scramble { return drawScramble(t, fs, allKinds) }
+
+var (
+	allKinds    = []int{0, 1, 2, 3, 4, 5, 6, 7}
+	indexKinds  = []int{0, 1, 2}
+	layoutKinds = []int{0, 1, 2, 0, 1, 2, 6, 7}
+)
 
 // DrawScrambleOrEmpty is DrawScramble that now and then ends in
 // GroupBy().Aggregate() - a frame of one row and no columns.
 func DrawScrambleOrEmpty(t *rapid.T, fs *FrameSpec) Scramble {
-	s := drawScramble(t, fs, 5)
+	s := drawScramble(t, fs, allKinds)
 	if Rare(t, "nocolumns", 300) {
 		s.Ops = append(s.Ops, ScrOp{Kind: "nocolumns"})
 	}
@@ -349,13 +409,25 @@ func DrawScrambleOrEmpty(t *rapid.T, fs *FrameSpec) Scramble {
 }
 
 // DrawIndexScramble draws index-changing operations only (the columns stay as generated).
-func DrawIndexScramble(t *rapid.T, fs *FrameSpec) Scramble { return drawScramble(t, fs, 2) }
+func DrawIndexScramble(t *rapid.T, fs *FrameSpec) Scramble { return drawScramble(t, fs, indexKinds) }
 
-func drawScramble(t *rapid.T, fs *FrameSpec, maxKind int) Scramble {
+// DrawLayoutScramble draws index-changing operations and rewrites of string
+// columns in place (same name, same type, same rows): the column's bytes end
+// up laid out in index order (built-in function applied to a sorted frame) or
+// shared by all rows (constant), unlike anything New produces.
+func DrawLayoutScramble(t *rapid.T, fs *FrameSpec) Scramble { return drawScramble(t, fs, layoutKinds) }
+
+func drawScramble(t *rapid.T, fs *FrameSpec, kinds []int) Scramble {
 	var s Scramble
 	n := rapid.IntRange(0, 3).Draw(t, "nscramble")
 	for i := 0; i < n; i++ {
-		switch rapid.IntRange(0, maxKind).Draw(t, "scr") {
+		switch kinds[rapid.IntRange(0, len(kinds)-1).Draw(t, "scr")] {
+		case 6:
+			c := fs.Cols[rapid.IntRange(0, len(fs.Cols)-1).Draw(t, "upcol")]
+			s.Ops = append(s.Ops, ScrOp{Kind: "upper", Col: c.Name})
+		case 7:
+			c := fs.Cols[rapid.IntRange(0, len(fs.Cols)-1).Draw(t, "constcol")]
+			s.Ops = append(s.Ops, ScrOp{Kind: "const", Col: c.Name, A: rapid.IntRange(0, len(strPool)-1).Draw(t, "constval")})
 		case 3:
 			// GroupBy + Aggregate: the result frame's columns come from
 			// different positions of the source frame
@@ -397,6 +469,22 @@ func (s Scramble) Apply(qf qframe.QFrame) qframe.QFrame {
 				b = a
 			}
 			qf = qf.Slice(a, b)
+		case "upper", "const":
+			// string columns only, in place; anything else is left alone
+			if !qf.Contains(op.Col) || qf.Len() == 0 {
+				break
+			}
+			if typ := qf.ColumnTypeMap()[op.Col]; typ != types.String {
+				break
+			}
+			var fn interface{} = "ToUpper"
+			instr := qframe.Instruction{Fn: fn, DstCol: op.Col, SrcCol1: op.Col}
+			if op.Kind == "const" {
+				instr = qframe.Instruction{Fn: strings.ReplaceAll(strPool[op.A%len(strPool)], "\r", ""), DstCol: op.Col}
+			}
+			if res := qf.Apply(instr); res.Err == nil {
+				qf = res
+			}
 		case "nocolumns":
 			if qf.Len() > 0 {
 				qf = qf.GroupBy().Aggregate()
@@ -461,7 +549,38 @@ func DrawBigFrame(t *rapid.T, minRows, maxRows int) *FrameSpec {
 		c.Floats[i] = []float64{0, 1.5, -2.25, 0.1, 1e21, 123456789.125, -1}[r.Intn(7)]
 	}
 	fs.Cols = []ColSpec{a, b, c}
+	// now and then an enum column whose value set is derived from the data,
+	// with a cardinality at or next to the limit of 255
+	if card := []int{0, 0, 3, 200, 254, 255}[rapid.IntRange(0, 5).Draw(t, "bigenum")]; card > 0 && n >= card {
+		e := ColSpec{Name: "e", Type: "enum", Strs: make([]*string, n)}
+		for i := 0; i < n; i++ {
+			v := i
+			if i >= card {
+				v = r.Intn(card)
+			}
+			s := "v" + strconv.Itoa(v)
+			if v%50 == 7 {
+				s += strPool[v%len(strPool)]
+			}
+			s = strings.ReplaceAll(s, "\r", "")
+			e.Strs[i] = &s
+		}
+		fs.Cols = append(fs.Cols, e)
+	}
 	return fs
+}
+
+// DrawStressFrame is a frame of one float column with 64..256 values from
+// StressFloats (and the row number): one simulated run carries hundreds of
+// floats through the writer and the reader.
+func DrawStressFrame(t *rapid.T) *FrameSpec {
+	n := rapid.IntRange(64, 256).Draw(t, "stressrows")
+	fl := StressFloats(rapid.Uint64().Draw(t, "stresskey"), n)
+	ids := make([]int, n)
+	for i := range ids {
+		ids[i] = i
+	}
+	return &FrameSpec{NRows: n, Cols: []ColSpec{{Name: "i", Type: "int", Ints: ids}, {Name: "f", Type: "float", Floats: fl}}}
 }
 
 // applyAgg groups by op.Col (when present) and aggregates every other column
